@@ -189,13 +189,39 @@ def run(ctx):
             ctx.anchor_lost(rule, 'Game::solve: RegretBound::new')
         for bi, t, e in nb:
             a = strip_refs(e[2][0])
-            # component 0 of the solver's result tuple, or its bounds field when the result is a named struct:
-            # a projection of the multi-def local that holds the value returned by the solve_* calls
-            base = strip_refs(a[1]) if a[0] == 'field' else None
-            from_solver = base is not None and base[0] == 'var' and all(v[0] == 'call' and short(v[1]).startswith('solve_') or (v[0] == 'field' or v[0] == 'downcast' or q.find_sub(v, lambda x: x[0] == 'call' and short(x[1]).startswith('solve_')) is not None)
-                                                                        for _, _, v in q.multi_def_values(f, base[1]))
+            # the [f64; 2] component of the value returned by a solve_* call, however that value travels to this
+            # point (tuple / named struct, through `?`, Ok(..) wrappers, map_err, temporaries, inlined helpers):
+            # the solver's result has exactly one [f64; 2] component, so origin + type identify the bounds
+            WRAP = {'branch', 'map_err', 'unwrap', 'expect', 'into', 'from', 'map', 'from_output', 'unwrap_unchecked'}
+
+            def from_solver(v, depth=0, only=None):
+                """`only`: the value is read as one of these variants, so definitions building another variant
+                (an Err(..), a from_residual(..)) cannot be its origin"""
+                v = strip_refs(v)
+                if depth > 10:
+                    return False
+                if v[0] == 'call' and short(v[1]).startswith('solve_'):
+                    return True
+                if v[0] == 'var':
+                    vals = [x for _, _, x in q.multi_def_values(f, v[1])]
+                    if only:
+                        vals = [x for x in vals if not (strip_refs(x)[0] == 'agg' and strip_refs(x)[1].startswith('adt:') and strip_refs(x)[1].rsplit('::', 1)[-1] not in only)
+                                and not (strip_refs(x)[0] == 'call' and short(strip_refs(x)[1]) == 'from_residual')]
+                    return bool(vals) and all(from_solver(x, depth + 1, only) for x in vals)
+                if v[0] == 'downcast':
+                    inner = strip_refs(v[1])
+                    if inner[0] == 'call' and short(inner[1]) == 'branch' and inner[2]:
+                        return from_solver(inner[2][0], depth + 1, {'Ok', 'Some'} if v[2] == 'Continue' else {'Err', 'None'})
+                    return from_solver(v[1], depth + 1, {v[2]})
+                if v[0] in ('field', 'cidx'):
+                    return from_solver(v[1], depth + 1, only)
+                if v[0] == 'call' and short(v[1]) in WRAP and v[2]:
+                    return from_solver(v[2][0], depth + 1)
+                if v[0] == 'agg' and v[2] and (v[1] == 'tuple' or v[1].startswith('adt:')):
+                    return any(from_solver(x, depth + 1) for x in v[2]) and all(from_solver(x, depth + 1) or strip_refs(x)[0] in ('const', 'param') for x in v[2])
+                return False
             f64pair = f.locals[t['args'][0]['pl']['l']]['ty'] == '[f64; 2]' if t['args'][0].get('o') in ('copy', 'move') else False
-            ok = a[0] == 'field' and (a[2] == '0' or f64pair) and from_solver
+            ok = f64pair and from_solver(a)
             ctx.verdict(ok, rule, rule + ':solve-wraps-solver-bounds', 'Game::solve wraps the pair of bounds returned by the solver unchanged', f.where(bi), 'argument %s' % facts.show(a)[:60])
     # initial value INFINITY
     rule = 'C02.initial-infinite'
